@@ -62,8 +62,8 @@ def run(ctx):
             p = problems.gen_problem(rng, A, alg_name=nm)
             p["x0"] = [v + 1e6 for v in p["x0"]]
             ps.append(p)
-        b1 = runcheck.run_batch(ctx, bdir, A, ps, [mon_settings], "first process")
-        b2 = runcheck.run_batch(ctx, bdir, A, ps, [], "second process", replay=False)
+        b1 = runcheck.run_batch(ctx, bdir, A, ps, [mon_settings], "first process", blame_crash=False)
+        b2 = runcheck.run_batch(ctx, bdir, A, ps, [], "second process", replay=False, blame_crash=False)
         runcheck.compare_pairs(ctx, [r for _, r, _ in b1], [r for _, r, _ in b2], same, "two processes", {"cause": "two equal runs differ"})
         # twice on the same object (generator reseeded) and on a copy
         ps2 = []
@@ -83,7 +83,7 @@ def run(ctx):
         pb = [seconds[id(r)] for r in pa]
         runcheck.compare_pairs(ctx, pa, pb, same, "twice on the same object", {"cause": "second run on the same object differs"})
         ps3 = [dict(p, copy=1) for p in ps[:len(ps) // 2]]
-        b3 = runcheck.run_batch(ctx, bdir, A, ps3, [], "on a copy", replay=False)
+        b3 = runcheck.run_batch(ctx, bdir, A, ps3, [], "on a copy", replay=False, blame_crash=False)
         runcheck.compare_pairs(ctx, [r for _, r, _ in b1][:len(ps3)], [r for _, r, _ in b3], same, "original vs nlopt_copy", {"cause": "copy optimizes differently"})
         ctx.sample({"spec": b1[0][1].spec})
     ctx.assumptions += ["determinism of the numeric cores beyond the global-symbol table (e.g. reads of uninitialised memory) is not modelled",
